@@ -41,7 +41,7 @@ KINDS = {
     "sumlin": [["sum", None, True]],
     "scale+lin": [["scale", 1.0], ["lin"]],
 }
-PAYLOADS = ["plain", "fixedmask", "flexmask"]
+PAYLOADS = ["plain", "fixedmask", "flexmask", "flexmask0"]
 LIMITS = ["0", "b-1", "b", "1.5b", "2b", "3b"]
 N = 6  # payload entries -> b = 48 bytes
 
@@ -49,6 +49,14 @@ N = 6  # payload entries -> b = 48 bytes
 def _limit(name):
     b = 8 * N
     return {"0": 0, "b-1": b - 1, "b": b, "1.5b": b + b // 2, "2b": 2 * b, "3b": 3 * b}[name]
+
+
+def _flex_payload(base, k, pk):
+    """time-varying mask; kind flexmask0 has an empty mask at every second publication"""
+    m = (np.arange(N) + k) % 4 == 0
+    if pk == "flexmask0" and k % 2 == 0:
+        m = np.zeros(N, bool)
+    return np.ma.array(base, mask=m)
 
 
 def _run(case, limit, loc, ctx):
@@ -88,7 +96,7 @@ def _run(case, limit, loc, ctx):
             elif pk == "fixedmask":
                 payload = np.ma.array(base, mask=fixed)
             else:
-                payload = np.ma.array(base, mask=(np.arange(N) + pubs) % 4 == 0)
+                payload = _flex_payload(base, pubs, pk)
             link.out.push_data(payload, t_now)
             pubs += 1
         else:
@@ -102,7 +110,7 @@ def _run(case, limit, loc, ctx):
                     continue
             r = inp.pull_data(t)
             m = r.magnitude
-            series.append((hs.mins(t), np.ma.getdata(m).copy(), np.ma.getmaskarray(m).copy(), str(r.units)))
+            series.append((hs.mins(t), np.ma.getdata(m).copy(), np.ma.getmaskarray(m).copy(), str(r.units), bool(np.ma.isMaskedArray(m))))
             last = t
         for s in slots:
             for _t, d in s.data:
@@ -166,7 +174,10 @@ def check(case, ctx):
     if len(ref) != len(got):
         ctx.violation(f"series-length|{kind}", f"{len(ref)} pulls without limit, {len(got)} with limit {lim}")
         return
-    for (t1, v1, m1, u1), (t2, v2, m2, u2) in zip(ref, got):
+    for (t1, v1, m1, u1, k1), (t2, v2, m2, u2, k2) in zip(ref, got):
+        if k1 != k2:
+            ctx.violation(f"masked-type-differs|{pk}", f"{kind}/{pk} limit {lim} at {t1} min: delivered {'MaskedArray' if k2 else 'plain ndarray'}, unlimited run delivers {'MaskedArray' if k1 else 'plain ndarray'}")
+            return
         if u1 != u2:
             ctx.violation(f"units-differ|{kind}", f"{kind}/{pk} limit {lim} at {t1} min: units {u2!r} instead of {u1!r}")
             return
@@ -215,8 +226,211 @@ def case_st(draw):
     }
 
 
+# ------------------------------------------------------------------ composition level
+def _mk_comp_classes():
+    import finam as fm
+
+    class Prod(fm.TimeComponent):
+        def __init__(self, step, pk, own_limit):
+            super().__init__()
+            self._time = hs.T0
+            self.step, self.pk, self.own_limit, self.k = step, pk, own_limit, 0
+
+        def _next_time(self):
+            return self.time + timedelta(minutes=self.step)
+
+        def _payload(self):
+            base = np.arange(N, dtype=float) * 0.25 + self.k
+            if self.pk == "plain":
+                return base
+            if self.pk == "fixedmask":
+                return np.ma.array(base, mask=np.arange(N) % 3 == 1)
+            return _flex_payload(base, self.k, self.pk)
+
+        def _initialize(self):
+            if self.pk == "plain":
+                self.outputs.add(name="o", time=self.time, grid=fm.NoGrid(1), units="mm/d")
+            else:
+                mask = (np.arange(N) % 3 == 1) if self.pk == "fixedmask" else fm.Mask.FLEX
+                self.outputs.add(name="o", time=self.time, grid=fm.UniformGrid((N + 1,)), units="mm/d", mask=mask)
+            if self.own_limit is not None:
+                self.outputs["o"].memory_limit = self.own_limit
+            self.create_connector()
+
+        def _connect(self, start_time):
+            self.try_connect(start_time, push_data={"o": self._payload()})
+
+        def _validate(self):
+            pass
+
+        def _update(self):
+            self._time = self.next_time
+            self.k += 1
+            self.outputs["o"].push_data(self._payload(), self.time)
+
+        def _finalize(self):
+            pass
+
+    class Cons(fm.TimeComponent):
+        def __init__(self, step, pk, series):
+            super().__init__()
+            self._time = hs.T0
+            self.step, self.pk, self.series = step, pk, series
+
+        def _next_time(self):
+            return self.time + timedelta(minutes=self.step)
+
+        def _initialize(self):
+            g = fm.NoGrid(1) if self.pk == "plain" else fm.UniformGrid((N + 1,))
+            self.inputs.add(name="i", time=self.time, grid=g, units=None)
+            self.create_connector(pull_data=["i"])
+
+        def _rec(self, t, r):
+            m = r.magnitude
+            self.series.append((hs.mins(t), np.ma.getdata(m).copy(), np.ma.getmaskarray(m).copy(), str(r.units), bool(np.ma.isMaskedArray(m))))
+
+        def _connect(self, start_time):
+            self.try_connect(start_time)
+            if self.status == fm.ComponentStatus.CONNECTED:
+                self._rec(start_time, self.connector.in_data["i"])
+
+        def _validate(self):
+            pass
+
+        def _update(self):
+            t = self.next_time
+            self._rec(t, self.inputs["i"].pull_data(t))
+            self._time = t
+
+        def _finalize(self):
+            pass
+
+    return Prod, Cons
+
+
+_COMP = None
+
+
+def _run_comp(case, limited, loc):
+    import finam as fm
+
+    global _COMP  # pylint: disable=global-statement
+    if _COMP is None:
+        _COMP = _mk_comp_classes()
+    Prod, Cons = _COMP
+    lim = _limit(case["limit"]) if limited else None
+    where = case["where"]  # composition | adapter | output
+    series = []
+    prod = Prod(case["pstep"], case["payload"], lim if (limited and where == "output") else None)
+    cons = Cons(case["cstep"], case["payload"], series)
+    kw = {"slot_memory_location": None}  # (the default location "temp" is created in the cwd on construction)
+    if limited:
+        kw = {"slot_memory_location": loc}
+        if where == "composition":
+            kw["slot_memory_limit"] = lim
+    comp = fm.Composition([prod, cons], print_log=False, **kw)
+    x = prod.outputs["o"]
+    adas = []
+    for a in KINDS[case["kind"]]:
+        ada = hs.make_adapter(a)
+        if limited and where == "adapter":
+            ada.memory_limit = lim
+        adas.append(ada)
+        x = x >> ada
+    x >> cons.inputs["i"]
+    comp.run(end_time=hs.tm(case["end"]))
+    return series, comp
+
+
+def check_comp(case, ctx):
+    import finam as fm
+
+    kind, pk, lim, where = case["kind"], case["payload"], case["limit"], case["where"]
+    ctx.event(f"{kind}|{pk}|{where}")
+    root = tempfile.mkdtemp(prefix="vf-c10c-")
+    old = os.getcwd()
+    seen = {"stray": None, "max": 0}
+    try:
+        cwd, loc = os.path.join(root, "cwd"), os.path.join(root, "spill")
+        os.makedirs(cwd)
+        os.chdir(cwd)
+        ref, _ = _run_comp(case, False, None)
+        if os.listdir(cwd):
+            ctx.violation("file-without-limit", f"files appear without any memory limit: {os.listdir(cwd)[:2]}")
+            return
+        # watch the directories while the limited run is going on: wrap os.remove/np.save is not needed -
+        # spill files only disappear through eviction/finalize, so look after connect and count at the end
+        import finam.sdk.output as fo
+
+        real_pack = fo.Output._pack
+
+        def watching_pack(self_, data):
+            r = real_pack(self_, data)
+            extra = os.listdir(cwd)
+            if extra:
+                seen["stray"] = extra[0]
+            if os.path.isdir(loc):
+                seen["max"] = max(seen["max"], len(os.listdir(loc)))
+            return r
+
+        fo.Output._pack = watching_pack
+        try:
+            got, _comp = _run_comp(case, True, loc)
+        except (fm.FinamDataError, fm.FinamTimeError, fm.FinamNoDataError, NotImplementedError, TypeError, ValueError, OSError) as e:
+            ctx.violation(f"limited-run-fails|{type(e).__name__}", f"composition {kind}/{pk} limit {lim} ({where}) fails although the unlimited run succeeds: {type(e).__name__}: {str(e)[:200]}")
+            return
+        finally:
+            fo.Output._pack = real_pack
+        left_cwd = os.listdir(cwd)
+        left_loc = os.listdir(loc) if os.path.isdir(loc) else []
+    finally:
+        os.chdir(old)
+        shutil.rmtree(root, ignore_errors=True)
+    ctx.nontrivial(seen["max"] > 0)
+    if seen["max"]:
+        ctx.event("spilled")
+    if seen["stray"] or left_cwd:
+        ctx.violation(f"file-outside-location|{where}", f"composition {kind}/{pk} limit {lim} set on {where}: file {seen['stray'] or left_cwd[0]} created outside slot_memory_location")
+        return
+    if left_loc:
+        ctx.violation("files-left-after-finalize|composition", f"{len(left_loc)} spill file(s) remain after the run: {left_loc[:3]}")
+        return
+    if len(ref) != len(got):
+        ctx.violation("series-length|composition", f"{len(ref)} pulls without limit, {len(got)} with limit")
+        return
+    for (t1, v1, m1, u1, k1), (t2, v2, m2, u2, k2) in zip(ref, got):
+        if (k1, u1) != (k2, u2) or v1.shape != v2.shape or not np.array_equal(m1, m2) or not np.array_equal(v1[~m1], v2[~m2]):
+            ctx.violation(f"composition-differs|{kind}|{pk}", f"composition {kind}/{pk} limit {lim} ({where}) at {t1} min: delivery differs from the unlimited run")
+            return
+
+
+def enum_comp(tier):
+    kinds = ["out", "lin", "prev", "avg", "sum"] if tier == "quick" else sorted(KINDS)
+    for kind in kinds:
+        for pk in PAYLOADS:
+            for lim in (["0", "b", "2b"] if tier == "quick" else LIMITS):
+                for where in ("composition", "adapter", "output"):
+                    if where == "adapter" and not KINDS[kind]:
+                        continue
+                    for pstep, cstep in ((60, 60), (30, 90), (90, 40)):
+                        yield {"kind": kind, "payload": pk, "limit": lim, "where": where, "pstep": pstep, "cstep": cstep, "end": 400}
+
+
+comp_st = st.fixed_dictionaries({
+    "kind": st.sampled_from(sorted(KINDS)),
+    "payload": st.sampled_from(PAYLOADS),
+    "limit": st.sampled_from(LIMITS),
+    "where": st.sampled_from(["composition", "adapter", "output"]),
+    "pstep": st.integers(10, 120),
+    "cstep": st.integers(10, 120),
+    "end": st.integers(50, 600),
+})
+
+
 def parts():
     return [
         Part("product_enum", check, enumerate=enum_cases, exhaustive=True),
         Part("histories", check, strategy=case_st(), budget={"quick": 600, "thorough": 24000}),
+        Part("composition_enum", check_comp, enumerate=enum_comp, exhaustive=True),
+        Part("composition_gen", check_comp, strategy=comp_st, budget={"quick": 150, "thorough": 6000}),
     ]
